@@ -68,6 +68,8 @@ def base_state(app):
     s = scenarios.S(rec, _r.Random(0))
     s.mk('p1')
     s.mk('p2', 'p1')
+    s.mk('p3', 'p1')
+    s.mk('p4')
     s.do(op='rc_post', v=39, name='CUSTOM_RC1')
     s.do(op='rc_post', v=39, name='CUSTOM_RC2')
     s.do(op='trait_put', v=39, name='CUSTOM_T1')
@@ -258,6 +260,8 @@ def feature_probes(app):
         'ac_root_required': ok('GET', ac + '&root_required=HW_CPU_X86_AVX'),
         'ac_same_subtree': ok('GET', '/allocation_candidates?resources1=VCPU:1&resources2=VCPU:1&same_subtree=1,2&group_policy=none'),
         'rp_reparent': lambda v: call('PUT', rp2, v, {'name': 'p2', 'parent_provider_uuid': None})[0] == 200,
+        'rp_reparent_same_tree': lambda v: call('PUT', '/resource_providers/' + U('p3'), v, {'name': 'p3', 'parent_provider_uuid': U('p2')})[0] == 200,
+        'rp_reparent_other_tree': lambda v: call('PUT', '/resource_providers/' + U('p3'), v, {'name': 'p3', 'parent_provider_uuid': U('p4')})[0] == 200,
         'alloc_put_consumer_type_required': lambda v: put_alloc(v, ctype=False) == 400 and put_alloc(v) == 204,
         'alloc_get_consumer_type': lambda v: 'consumer_type' in (call('GET', c1, v)[2] or {}),
         'usages_consumer_type': ok('GET', '/usages?project_id=proj1&consumer_type=INSTANCE'),
